@@ -186,7 +186,8 @@ def encode_sequence(content, error=None, version=None, mode=None, mask=None,
         content = str(content)
     if symbol_count is not None and len(content) < symbol_count:
         raise ValueError(f'The content is not long enough to be divided into {symbol_count} symbols')
-    sa_parity_data = calc_structured_append_parity(content)
+    sa_parity_data = calc_structured_append_parity(content, consts.HANZI_ENCODING if mode == consts.MODE_HANZI
+                                                   else encoding)
     num_symbols = symbol_count or 16
     if version is not None:
         num_symbols = number_of_symbols_by_version(content, version, error, mode)
@@ -1429,17 +1430,21 @@ def calc_matrix_size(ver):
     return ver * 4 + 17 if ver > 0 else (ver + 4) * 2 + 9
 
 
-def calc_structured_append_parity(content):
+def calc_structured_append_parity(content, encoding=None):
     """\
     Calculates the parity data for the Structured Append mode.
 
     :param str content: The content.
+    :param encoding: The encoding used to convert the content into bytes
+            or ``None`` to use the default policy (ISO/IEC 8859-1, Shift JIS, UTF-8).
     :rtype: int
     """
     if isinstance(content, bytes):
         return reduce(xor, content, 0)
     if not isinstance(content, str):
         content = str(content)
+    if encoding is not None:
+        return reduce(xor, content.encode(encoding), 0)
     try:
         data = content.encode('iso-8859-1')
     except UnicodeError:
